@@ -78,7 +78,7 @@ inductive Obj where
   | tuple (items : List Obj)
   | list (items : List Obj)
   | table (pairs : List (Obj × Obj))    -- a Table, its pairs in slot order (the order `foreach` and Table_Show walk)
-  | tree (pairs : List (Obj × Obj))     -- a Tree, its pairs in key order
+  | tree (pairs : List (Obj × Obj))     -- a Tree, its pairs in iteration order (descending keys)
   | range (items : List Int)            -- a Range, the values its iteration yields
   | slice (items : List Obj)            -- a Slice, the items its iteration yields
   | box (inner : Obj)                   -- a Box; `inner` = what `Box_Deref` returns (`.null` for an empty Box)
@@ -528,10 +528,10 @@ def Obj.isSink : Obj → Bool
   | _ => false
 
 /-- within `d` levels of `show` neither the destination itself (aliasing: `String_Show` / `String_Format_To` read the buffer
-    they reallocate) nor a Type object (`Type_Show` returns a length, not a position) is reached.  Decidable; beyond `d`
-    levels `showD d` runs out of fuel before it reaches anything. -/
+    they reallocate) nor a Type object (`Type_Show` returns a length, not a position) is reached, and the object is not the
+    destination.  Decidable; beyond `d` levels `showD d` runs out of fuel before it reaches anything. -/
 def plainD : Nat → Obj → Bool
-  | 0, _ => true
+  | 0, a => !a.isSink
   | d+1, a =>
     match a with
     | .sink => false
@@ -547,7 +547,7 @@ def plainD : Nat → Obj → Bool
 
 /-- the argument list of a `print_to` whose `show` has fuel `d`: no argument is the destination, and `show` of each stays
     clear of the destination and of Type objects -/
-def plainArgs (d : Nat) (args : List Obj) : Bool := args.all fun a => !a.isSink && plainD d a
+def plainArgs (d : Nat) (args : List Obj) : Bool := args.all (plainD d)
 
 /-! ## the grammar and its reference semantics -/
 
